@@ -361,7 +361,7 @@ def build_cases(tier, seed, wd, res):
     # strings of the class alphabet: quick = all up to length 4 plus a seeded sample of the longer ones
     cut = 4 if quick else 5
     longer = [s for s in strings if len(s) > cut]
-    chosen = [s for s in strings if len(s) <= cut] + rnd.sample(longer, min(len(longer), 6000 if quick else 40000))
+    chosen = [s for s in strings if len(s) <= cut] + rnd.sample(longer, min(len(longer), 6000 if quick else 20000))
     for s in chosen:
         add({"dir": "sn", "in": concretize(s, rnd)}, "strings")
     for s in rnd.sample(chosen, min(len(chosen), 600 if quick else 6000)):
@@ -372,8 +372,8 @@ def build_cases(tier, seed, wd, res):
         p = positional(n["neg"], n["ds"], n["e"])
         add({"dir": "sn", "in": cps(p if i % 2 == 0 else variant(p, rnd))}, "numerals")
         near = -4 <= n["e"] <= 18          # rounding is interesting where the numeral has a fraction or is a large integer
-        for f in (fns if near and not quick else [fns[i % 3]]):
-            if quick and not (-4 <= n["e"] <= 18 or i % 7 == 0):
+        for f in (fns if near and not quick else [fns[(i // 3 + i) % 3]]):
+            if not near and i % (7 if quick else 3) != 0:
                 continue
             add({"dir": f, "in": cps(p if i % 5 else variant(p, rnd))}, "numerals-fn")
     # beyond the double range on both sides
@@ -382,7 +382,7 @@ def build_cases(tier, seed, wd, res):
         for f in fns:
             add({"dir": f, "in": cps(s)}, "range-ends")
     # ties and their neighbours, exact expansions
-    for x in gen_ties(rnd, 30 if quick else 400):
+    for x in gen_ties(rnd, 30 if quick else 250):
         s = exact_decimal(x)
         for f in fns:
             add({"dir": f, "in": cps(s)}, "ties")
@@ -457,8 +457,8 @@ def run(res, tier, seed):
     for flavour, evs, probs in (("hooks", events, problems), ("asan", aevents, aproblems)):
         if probs:
             rc, err, got, n, cp = probs[0]
-            if rc == 2:
-                raise vlib.Infra("harness usage error (%s): %s" % (flavour, err))
+            if rc in (2, 3):
+                raise vlib.Infra("harness could not run (%s, rc=%d): %s" % (flavour, rc, err))
             res.violation("harness (%s) terminated abnormally (rc=%s, %d of %d events): %s" % (flavour, rc, got, n, err[-300:]), evs[-5:])
             return
     for ev in aevents:
